@@ -140,7 +140,7 @@ pub fn gen_case(seed: u64, idx: u64, pairs: usize) -> Case {
                 _ => 1 + rng.below(total as u64 + 1) as u32,
             },
             fd_limit: rng.urange(2, 6) as u32,
-            threads: *rng.pick(&[1u32, 1, 2, 2, 3, 3, 4, 5, 6, 8]),
+            threads: *rng.pick(&[1u32, 1, 2, 2, 3, 3, 4, 5, 6, 8, 12, 16]),
             sched: Sched::Policy { policy, seed: rng.next_u64() },
         });
     }
